@@ -135,6 +135,8 @@ class MHLHistory:
         # also search the root directory hashes from all child histories
         if relative_path == ".":
             for hash_list in self.hash_lists:
+                if hash_list.process_info.root_media_hash is None:
+                    continue
                 for hash_entry in hash_list.process_info.root_media_hash.hash_entries:
                     # FIXME is there a better way of accessing the generation from a hash entry?
                     hash_entry.temp_generation_number = hash_list.generation_number
